@@ -1,11 +1,25 @@
 (* C10 — Objects lent to the peer live exactly as long as the peer holds them.
-   Only statements, [exact]s and Print Assumptions live here.  The theorems are about the model
-   instantiated with the parameters regenerated from the source tree (gen/Gen_colls.v); they hold for
-   every finite history of valid operations (model/Refcount.v, [op]) over any number of objects:
-   send again (alone / repeatedly in one tuple, async / sync), drop one or all references to a proxy,
-   operate through a proxy and pass proxies back (optionally getting the object back by reference),
-   forget the object at its owner, collect results (forced delivery), deliver the next message in
-   either direction, close from either side. *)
+   Only statements, [exact]s and Print Assumptions live here.
+
+   SCOPE (what these theorems are about, and what they are not about).
+   The theorems speak about the model model/Refcount.v instantiated with the parameters regenerated from the
+   source tree (gen/Gen_colls.v), for every finite history over any number of objects of the operations [op]:
+   send again (alone / repeatedly in one tuple, async / sync, also to a peer function that raises), drop one
+   or all references to a proxy, operate through a proxy and pass proxies back (plain answer / the object comes
+   back by reference / the call raises), forget the object at its owner, collect results (forced delivery),
+   deliver the next message in either direction, close from either side (also while the before_closed hook or
+   the service's on_disconnect raises), and keep using the closed connection.
+   Exclusions, stated as hypotheses or by the choice of [run]:
+   * the lent objects are objects whose proxy class the peer already knows (builtin types), so that unboxing a
+     reference needs no nested HANDLE_INSPECT exchange and the peer has at most one live proxy per object.
+     USER-CLASS INSTANCES, CLASSES AND MODULES ARE NOT COVERED BY THESE THEOREMS (for them one delivery may
+     consume several messages and several proxies of one object may be alive); the harness evaluates the
+     property's statement on them directly, after every step;
+   * [valid_op]: the peer only sends release notices / local references it is entitled to, and the key of a lent
+     object (rpyc.lib.get_id_pack) does not change while it is lent ([Morph]; see c10_unstable_key_refuted);
+   * [calm_op] (theorems 3c, 3'): moreover no remote call raises; otherwise the connection that served the call
+     keeps the traceback, and with it the lent object / the proxies (see 3r, 3'r);
+   * theorems 4, 4': the generated close-path facts. *)
 From V Require Import lib.Base model.Refcount proofs.RefcountP proofs.RefcountTie gen.Gen_colls.
 Open Scope Z_scope.
 Notation Pg := Gen_colls.params.
@@ -15,57 +29,129 @@ Notation Pg := Gen_colls.params.
 Theorem c10_inv : forall ops k, Forall valid_op ops -> closed (run Pg ops) = false ->
   Sv (slot (run Pg ops)) k =
     refs (qab (run Pg ops)) k + pz (prox (run Pg ops) k) + dels (qba (run Pg ops)) k.
-Proof. rewrite tie_params. exact count_invariant. Qed.
+Proof. rewrite tie_params. apply count_invariant. Qed.
 Print Assumptions c10_inv.
 
 (* 2. while the peer holds a proxy -- or a reference, a release notice or a request through a proxy is still
-      in flight -- the owner's connection references the object (so it is alive); in particular a release
-      notice crossing a fresh reference cannot remove the entry *)
+      in flight -- the owner's table references the object (so it is alive); in particular a release notice
+      crossing a fresh reference cannot remove the entry *)
 Theorem c10_alive_while_held : forall ops k, Forall valid_op ops -> closed (run Pg ops) = false ->
   held_or_in_flight (run Pg ops) k -> slot (run Pg ops) k <> None /\ alive (run Pg ops) k = true.
-Proof. rewrite tie_params. exact alive_while_held. Qed.
+Proof. rewrite tie_params. apply alive_while_held. Qed.
 Print Assumptions c10_alive_while_held.
 
 (* 2'. no lookup or decref at the owner ever raises KeyError: every LOCAL_REF and every release notice finds
        its slot, in every interleaving *)
 Theorem c10_no_keyerror : forall ops, Forall valid_op ops -> errs (run Pg ops) = O.
-Proof. rewrite tie_params. exact no_keyerror. Qed.
+Proof. rewrite tie_params. apply no_keyerror. Qed.
 Print Assumptions c10_no_keyerror.
 
-(* 2''. reachable through every proxy the peer holds: the request is sent, it and everything before it is
-        served, and nothing raises at the owner *)
-Theorem c10_reachable_through_proxy : forall ops c args ret, Forall valid_op ops -> closed (run Pg ops) = false ->
+(* 2''. reachable through every proxy the peer holds: the request is sent; when the owner has worked through its
+        stream up to and including it, no KeyError was raised and the last message the owner sent is the answer
+        the callee determines ([answer]: plain value / the object by reference / the callee's own exception) *)
+Theorem c10_use_is_served : forall ops c args md, Forall valid_op ops -> closed (run Pg ops) = false ->
   (forall k, In k (c :: args) -> holds (run Pg ops) k <> O) ->
-  In (MUse c args ret) (qba (run Pg (ops ++ [Use c args ret]))) /\
-  qba (run Pg ((ops ++ [Use c args ret]) ++ [Sync])) = [] /\
-  errs (run Pg ((ops ++ [Use c args ret]) ++ [Sync])) = O.
-Proof. rewrite tie_params. exact reachable_through_proxy. Qed.
-Print Assumptions c10_reachable_through_proxy.
+  let s1 := run Pg (ops ++ [Use c args md]) in
+  let s2 := run Pg ((ops ++ [Use c args md]) ++ repeat DeliverBA (List.length (qba s1))) in
+  qba s1 = qba (run Pg ops) ++ [MUse c args md] /\ closed s2 = false /\ qba s2 = [] /\ errs s2 = O /\
+  exists pre, qab s2 = pre ++ [answer args md].
+Proof. rewrite tie_params. apply use_is_served. Qed.
+Print Assumptions c10_use_is_served.
 
-(* 3. once the peer has no proxy and no reference / release notice for k is in flight, the owner's connection
-      no longer references k: the object lives exactly as long as its owner application keeps it *)
+(* 3. once the peer has no proxy and no reference / release notice for k is in flight, the owner's table no
+      longer references k; the object then lives through its owner application -- or through the frames of the
+      owner connection's last traceback (a remote call on it raised) *)
 Theorem c10_released_at_quiescence : forall ops k, Forall valid_op ops -> closed (run Pg ops) = false ->
   refs (qab (run Pg ops)) k = 0 -> dels (qba (run Pg ops)) k = 0 -> prox (run Pg ops) k = None ->
-  slot (run Pg ops) k = None /\ alive (run Pg ops) k = appref (run Pg ops) k.
-Proof. rewrite tie_params. exact released_at_quiescence. Qed.
+  slot (run Pg ops) k = None /\ alive (run Pg ops) k = appref (run Pg ops) k || mem k (tbo (run Pg ops)).
+Proof. rewrite tie_params. apply released_at_quiescence. Qed.
 Print Assumptions c10_released_at_quiescence.
 
-(* 3'. and that state is always reached: from any reachable open state, once everything in flight has been
-       consumed, the peer drops every proxy of the objects ks and the owner processes the release notices,
-       the owner's connection references none of them (no leak at quiescence after arbitrarily long histories) *)
-Theorem c10_release_after_drop : forall ops ks, Forall valid_op ops -> closed (run Pg ops) = false ->
+(* 3c. ... exactly as long as its owner application keeps it, when no remote call raised *)
+Theorem c10_released_at_quiescence_calm : forall ops k, Forall calm_op ops -> closed (run Pg ops) = false ->
+  refs (qab (run Pg ops)) k = 0 -> dels (qba (run Pg ops)) k = 0 -> prox (run Pg ops) k = None ->
+  slot (run Pg ops) k = None /\ alive (run Pg ops) k = appref (run Pg ops) k.
+Proof.
+  rewrite tie_params. intros ops k Hc Ho Hr Hd Hp.
+  destruct (released_at_quiescence _ _ _ ops k (calm_valid_all ops Hc) Ho Hr Hd Hp) as [A B]. split; [exact A|].
+  rewrite B, (q_tbo _ (run_quiet _ _ _ ops Hc)). apply orb_false_r.
+Qed.
+Print Assumptions c10_released_at_quiescence_calm.
+
+(* 3r. the full statement "lives exactly as long as held" fails after a raising call (the generated fact
+       keeps_last_traceback, tied in RefcountTie): released, forgotten, and still alive *)
+Theorem c10_alive_exact_refuted : exists ops k,
+  Forall valid_op ops /\ closed (run Pg ops) = false /\
+  refs (qab (run Pg ops)) k = 0 /\ dels (qba (run Pg ops)) k = 0 /\
+  prox (run Pg ops) k = None /\ slot (run Pg ops) k = None /\
+  appref (run Pg ops) k = false /\ alive (run Pg ops) k = true.
+Proof. rewrite tie_params. apply alive_exact_refuted. Qed.
+Print Assumptions c10_alive_exact_refuted.
+
+(* 3'. and that state is always reached: from any reachable open state of a history without raising calls, once
+       everything in flight has been consumed, the peer drops every proxy of the objects ks and the owner
+       processes the release notices, the owner's connection references none of them (no leak at quiescence
+       after arbitrarily long histories) *)
+Theorem c10_release_after_drop : forall ops ks, Forall calm_op ops -> closed (run Pg ops) = false ->
   let s := run Pg (ops ++ [Sync; Sync] ++ map DropAll ks ++ [Sync]) in
   closed s = false /\ qba s = [] /\ norefs (qab s) /\
   forall k, In k ks -> prox s k = None /\ slot s k = None /\ alive s k = appref s k.
-Proof. rewrite tie_params. exact release_after_drop. Qed.
+Proof. rewrite tie_params. apply release_after_drop. Qed.
 Print Assumptions c10_release_after_drop.
 
-(* 4. closing (by either side) releases everything, after any history at all -- also one with a misbehaving
-      peer -- and nothing comes back afterwards *)
-Theorem c10_close_releases : forall ops b more k,
-  closed (run Pg (ops ++ Close b :: more)) = true /\ slot (run Pg (ops ++ Close b :: more)) k = None.
-Proof. rewrite tie_params. exact close_releases. Qed.
+(* 3'r. with a raising call served by the peer it fails: the peer application holds nothing, both streams are
+        empty, and the owner's entry stays (the proxy lives on in the peer connection's last traceback) *)
+Theorem c10_release_after_drop_refuted : exists ops k,
+  Forall valid_op ops /\ closed (run Pg ops) = false /\
+  let s := run Pg (ops ++ [Sync; Sync] ++ map DropAll [k] ++ [Sync]) in
+  closed s = false /\ qab s = [] /\ qba s = [] /\ holds s k = O /\ prox s k = Some 1 /\ slot s k = Some 0.
+Proof. rewrite tie_params. apply release_after_drop_refuted. Qed.
+Print Assumptions c10_release_after_drop_refuted.
+
+(* 3''r. why the key of a lent object has to be stable: _handle_del recomputes it (get_id_pack(obj)); after a
+         change the release notice raises KeyError at the owner and the entry is never released *)
+Theorem c10_unstable_key_refuted : exists ops k,
+  Forall valid_op ops /\
+  let s := run Pg (ops ++ [Morph k; DropAll k; Sync; Sync]) in
+  closed s = false /\ qba s = [] /\ prox s k = None /\ holds s k = O /\ errs s = 1%nat /\ slot s k = Some 0.
+Proof. rewrite tie_params. apply unstable_key_refuted. Qed.
+Print Assumptions c10_unstable_key_refuted.
+
+(* 4. closing (by either side, after any history at all, also with a misbehaving peer): at the instant of the
+      close every entry is gone, provided the closing connection reaches its clear -- always when no hook raises;
+      with a raising before_closed hook iff close() calls _cleanup in a finally; with a raising on_disconnect iff
+      the clear in _cleanup is guarded against it *)
+Theorem c10_close_releases : forall ops b f k, closed (run Pg ops) = false -> close_reaches_clear Pg b f = true ->
+  closed (run Pg (ops ++ [Close b f])) = true /\ slot (run Pg (ops ++ [Close b f])) k = None.
+Proof. rewrite tie_params. apply close_releases_now. Qed.
 Print Assumptions c10_close_releases.
+
+(* 4'. and nothing comes back afterwards, whatever is done with the closed connection -- when lending through a
+       closed connection is refused before anything is boxed *)
+Theorem c10_close_stays_released : Gen_colls.send_checks_closed = true ->
+  forall ops b f more k, closed (run Pg ops) = false -> close_reaches_clear Pg b f = true ->
+  closed (run Pg (ops ++ Close b f :: more)) = true /\ slot (run Pg (ops ++ Close b f :: more)) k = None.
+Proof. rewrite tie_params. intros H ops b f more k. now apply close_stays_released. Qed.
+Print Assumptions c10_close_stays_released.
+
+(* 4r. what happens when the close-path facts are false *)
+Theorem c10_close_stays_released_refuted : Gen_colls.send_checks_closed = false -> exists ops more k,
+  Forall valid_op (ops ++ Close false FNone :: more) /\ closed (run Pg ops) = false /\
+  slot (run Pg (ops ++ [Close false FNone])) k = None /\
+  closed (run Pg (ops ++ Close false FNone :: more)) = true /\
+  slot (run Pg (ops ++ Close false FNone :: more)) k = Some 0.
+Proof. rewrite tie_params. intros ->. apply close_stays_released_refuted. Qed.
+Print Assumptions c10_close_stays_released_refuted.
+Theorem c10_close_releases_refuted_on_disconnect : Gen_colls.cleanup_guarded = false -> exists ops b k,
+  closed (run Pg ops) = false /\ closed (run Pg (ops ++ [Close b FDisc])) = true /\
+  slot (run Pg (ops ++ [Close b FDisc])) k = Some 0.
+Proof. rewrite tie_params. intros ->. apply close_releases_refuted_disc. Qed.
+Print Assumptions c10_close_releases_refuted_on_disconnect.
+Theorem c10_close_releases_refuted_before_closed : Gen_colls.close_finally = false -> exists ops k,
+  closed (run Pg ops) = false /\ closed (run Pg (ops ++ [Close false FHook])) = true /\
+  slot (run Pg (ops ++ [Close false FHook])) k = Some 0.
+Proof. rewrite tie_params. intros ->. apply close_releases_refuted_hook. Qed.
+Print Assumptions c10_close_releases_refuted_before_closed.
 
 (* ---- non-vacuity ---- *)
 (* the race of the property text: object 0 is sent twice in one tuple, the peer drops its proxy (release
@@ -74,7 +160,7 @@ Print Assumptions c10_close_releases.
 Definition crossing : list op :=
   [Send [0; 0]; DeliverAB; DropAll 0; Send [0]; DeliverBA; DeliverBA; DeliverAB]%nat.
 Example c10_crossing_race :
-  Forall valid_op crossing /\
+  Forall calm_op crossing /\
   (let s := run Pg (firstn 4 crossing) in
      slot s 0%nat = Some 2 /\ prox s 0%nat = None /\ refs (qab s) 0%nat = 1 /\ dels (qba s) 0%nat = 2) /\
   (let s := run Pg (firstn 6 crossing) in slot s 0%nat = Some 0 /\ prox s 0%nat = None /\ refs (qab s) 0%nat = 1) /\
@@ -85,50 +171,55 @@ Proof.
   split; [repeat constructor|]. vm_compute. repeat split; try reflexivity. left. discriminate.
 Qed.
 
-(* all three terms of the invariant non-zero at once, two objects *)
+(* all three terms of the invariant non-zero at once, two objects, with a raising call in the history *)
 Example c10_inv_nontrivial :
-  let ops := [Send [0; 0; 1]; DeliverAB; DropAll 0; Send [0]; DeliverAB; Send [0; 1]]%nat in
+  let ops := [Send [0; 0; 1]; DeliverAB; DropAll 0; SendRaise [1]; Send [0]; DeliverAB; DeliverAB; Send [0; 1]]%nat in
   let s := run Pg ops in
   Forall valid_op ops /\ closed s = false /\ slot s 0%nat = Some 3 /\
-  refs (qab s) 0%nat = 1 /\ pz (prox s 0%nat) = 1 /\ dels (qba s) 0%nat = 2 /\ slot s 1%nat = Some 1.
+  refs (qab s) 0%nat = 1 /\ pz (prox s 0%nat) = 1 /\ dels (qba s) 0%nat = 2 /\ slot s 1%nat = Some 2 /\ pz (prox s 1%nat) = 2.
 Proof. cbn zeta. split; [repeat constructor|]. vm_compute. repeat split; reflexivity. Qed.
 
 (* quiescence is reached and the entry is gone; the object then lives only through its owner *)
 Example c10_quiescence_reached :
-  let ops := crossing ++ [Use 0 [0] true; Sync; Sync; DropAll 0; Sync; Forget 0]%nat in
+  let ops := crossing ++ [Use 0 [0] URet; Sync; Sync; DropAll 0; Sync; Forget 0]%nat in
   let s := run Pg ops in
-  Forall valid_op ops /\ closed s = false /\ refs (qab s) 0%nat = 0 /\ dels (qba s) 0%nat = 0 /\ prox s 0%nat = None /\
+  Forall calm_op ops /\ closed s = false /\ refs (qab s) 0%nat = 0 /\ dels (qba s) 0%nat = 0 /\ prox s 0%nat = None /\
   slot s 0%nat = None /\ alive s 0%nat = false /\ errs s = O /\
-  slot (run Pg (crossing ++ [Use 0 [0] true; Sync; Sync]%nat)) 0%nat = Some 1.
+  slot (run Pg (crossing ++ [Use 0 [0] URet; Sync; Sync]%nat)) 0%nat = Some 1.
 Proof. cbn zeta. split; [repeat constructor|]. vm_compute. repeat split; reflexivity. Qed.
 
 (* dropping and draining from a state with references, proxies and notices in flight, three objects *)
 Example c10_release_after_drop_nontrivial :
-  let ops := [Send [0; 1; 1; 2]; DeliverAB; DropAll 1; Send [1; 2]; Use 0 [2] true; DeliverBA; DeliverBA]%nat in
+  let ops := [Send [0; 1; 1; 2]; DeliverAB; DropAll 1; Send [1; 2]; Use 0 [2] URet; DeliverBA; DeliverBA]%nat in
   let s := run Pg ops in
-  Forall valid_op ops /\ closed s = false /\ slot s 0%nat = Some 0 /\ slot s 1%nat = Some 0 /\ slot s 2%nat = Some 1 /\
+  Forall calm_op ops /\ closed s = false /\ slot s 0%nat = Some 0 /\ slot s 1%nat = Some 0 /\ slot s 2%nat = Some 1 /\
   List.length (qab s) = 2%nat /\ List.length (qba s) = 1%nat /\
   let s' := run Pg (ops ++ [Sync; Sync] ++ map DropAll [0; 1; 2]%nat ++ [Sync]) in
   slot s' 0%nat = None /\ slot s' 1%nat = None /\ slot s' 2%nat = None.
 Proof. cbn zeta. split; [repeat constructor|]. vm_compute. repeat split; reflexivity. Qed.
 
-(* a proxy held by the peer is usable *)
-Example c10_reachable_nontrivial :
-  holds (run Pg crossing) 0%nat <> O /\ In (MUse 0 [0]%nat true) (qba (run Pg (crossing ++ [Use 0 [0] true]%nat))).
-Proof. vm_compute. split; [discriminate|]. right. now left. Qed.
+(* a proxy held by the peer is used, behind a release notice of an earlier proxy of the same object: the answer
+   is the object itself by reference *)
+Example c10_use_is_served_nontrivial :
+  let ops := crossing ++ [Send [0]; DropAll 0; DeliverAB; DeliverAB]%nat in
+  holds (run Pg ops) 0%nat <> O /\ qba (run Pg ops) <> [] /\ answer [0%nat] URet = MReplyRef (Some 0%nat) /\
+  List.length (qba (run Pg (ops ++ [Use 0 [0] URet]%nat))) = 4%nat.
+Proof. vm_compute. repeat split; try reflexivity; discriminate. Qed.
 
-(* closing with entries present *)
+(* closing with entries present; with the before_closed hook raising (the tree calls _cleanup in a finally) *)
 Example c10_close_nontrivial :
   slot (run Pg [Send [0; 1]; DeliverAB]%nat) 0%nat = Some 0 /\
-  slot (run Pg ([Send [0; 1]; DeliverAB] ++ Close false :: [Send [0]])%nat) 0%nat = None /\
-  slot (run Pg ([Send [0; 1]; DeliverAB; DropAll 1] ++ Close true :: [])%nat) 1%nat = None.
+  close_reaches_clear Pg false FNone = true /\ close_reaches_clear Pg true FHook = true /\
+  slot (run Pg ([Send [0; 1]; DeliverAB] ++ [Close false FNone])%nat) 0%nat = None /\
+  slot (run Pg ([Send [0; 1]; DeliverAB; DropAll 1] ++ [Close true FNone])%nat) 1%nat = None.
 Proof. vm_compute. repeat split; reflexivity. Qed.
 
 (* the parameters matter: with `<=` instead of `<` in decref the crossing race loses the entry while the
    peer holds a proxy (the model follows the generated parameters, the theorems need the generated ones) *)
 Example c10_le_would_break :
   let P := {| p_add_init := 0; p_add_inc := 1; p_dec_cmp := CLe; p_dec_default := 1; p_proxy_init := 1;
-              p_unbox_inc := 1; p_del_src := DRefcount; p_cleanup_clears := true |} in
+              p_unbox_inc := 1; p_del_src := DRefcount; p_cleanup_clears := true;
+              p_send_checks_closed := true; p_cleanup_guarded := true; p_close_finally := true |} in
   let ops := [Send [0]; DeliverAB; DropAll 0; Send [0]; DeliverBA; DeliverBA; DeliverAB]%nat in
   slot (run P ops) 0%nat = None /\ prox (run P ops) 0%nat = Some 1.
 Proof. vm_compute. split; reflexivity. Qed.
